@@ -137,11 +137,12 @@ func TestC12(t *testing.T) {
 		emptyValues(t, r)
 		damagedCacheEntries(t, r)
 		handlesAfterFailedCalls(t, r)
+		storesOfTwoServices(t, r)
 		for i := 0; i < r.N(12, 90); i++ {
 			idleLookupsAcrossAPoll(t, r, i)
 		}
 	}
-	r.Require("handle_calls_after_a_failed_call", "starts_from_a_damaged_cache", "idle_lookups_across_a_poll", "empty_value_reads", "rollback_polls_after_a_failed_poll", "handle_reads_during_updater_storm", "reads_after_close_with_cache_fault", "rollback_polls", "handles_from_racing_lookups", "reads_validated", "reads_after_close", "polls_completed", "lookups_during_reads", "expiry_sweeps", "parked_probes_completed", "reader_serial_transitions", "read_after_poll_checks", "handles_obtained_during_poll")
+	r.Require("handles_beside_a_store_of_another_service", "handle_calls_after_a_failed_call", "starts_from_a_damaged_cache", "idle_lookups_across_a_poll", "empty_value_reads", "rollback_polls_after_a_failed_poll", "handle_reads_during_updater_storm", "reads_after_close_with_cache_fault", "rollback_polls", "handles_from_racing_lookups", "reads_validated", "reads_after_close", "polls_completed", "lookups_during_reads", "expiry_sweeps", "parked_probes_completed", "reader_serial_transitions", "read_after_poll_checks", "handles_obtained_during_poll")
 	r.Rule("stress repetitions: 16 reader goroutines over handles of 3 declared + up to 4 looked-up secrets, concurrent with a background poller on a fast ticker, explicit Refresh callers, a service that keeps installing new values, lookups of fresh names, expiry sweeps driven by an injected clock, then Close with readers continuing; every read validated. Parked-request probes: while a poll/lookup/initial request is parked in the service, every handle is called 100 times. Distinct = (reader serial transition kind x concurrent event) and probe kinds")
 }
 
@@ -1267,5 +1268,83 @@ func handlesAfterFailedCalls(t *testing.T, r *evid.Run) {
 			}
 		}
 		st.Close()
+	}
+}
+
+// storesOfTwoServices: one process talks to two setec services (two tailnets, two environments) through two
+// stores; the services use the same secret names. While a request of store A is outstanding, store B looks the
+// same name up, and polls. B's handles return bytes that B's service served, and follow B's completed polls.
+func storesOfTwoServices(t *testing.T, r *evid.Run) {
+	for c, n := 0, r.N(8, 60); c < n; c++ {
+		mk := func(tag string) (*fakesvc.Service, *setec.Store) {
+			svc := fakesvc.New()
+			svc.Set("base", 1, []byte("base@"+tag))
+			svc.Set("api-key", 1, []byte("api-key@"+tag))
+			st, err := setec.NewStore(context.Background(), setec.StoreConfig{Client: svc, Secrets: []string{"base"}, AllowLookup: true, PollInterval: -1, Logf: func(string, ...any) {}})
+			if err != nil {
+				t.Fatalf("NewStore: %v", err)
+			}
+			return svc, st
+		}
+		svcA, stA := mk("A")
+		svcB, stB := mk("B")
+		gate := make(chan struct{})
+		parked := make(chan struct{}, 4)
+		svcA.Behave = func(q *fakesvc.Req) fakesvc.Behaviour {
+			parked <- struct{}{}
+			return fakesvc.Behaviour{Hold: gate}
+		}
+		adone := make(chan struct{})
+		go func() {
+			defer close(adone)
+			if c%2 == 0 {
+				stA.LookupSecret(context.Background(), "api-key")
+			} else {
+				stA.Refresh(context.Background())
+			}
+		}()
+		<-parked // A's request is outstanding
+		type res struct {
+			h   setec.Secret
+			err error
+		}
+		bdone := make(chan res, 1)
+		go func() {
+			if c%2 == 0 {
+				h, err := stB.LookupSecret(context.Background(), "api-key")
+				bdone <- res{h, err}
+			} else {
+				svcB.Set("base", 2, []byte("base2@B"))
+				err := stB.Refresh(context.Background())
+				bdone <- res{stB.Secret("base"), err}
+			}
+		}()
+		var b res
+		select {
+		case b = <-bdone:
+		case <-time.After(3 * time.Second):
+			// B waits for A's request: let it go and judge what B ends up with
+			close(gate)
+			gate = nil
+			b = <-bdone
+		}
+		if gate != nil {
+			close(gate)
+		}
+		<-adone
+		r.Eval(1)
+		r.Count("handles_beside_a_store_of_another_service", 1)
+		r.Distinct(fmt.Sprintf("two services, lookup=%t", c%2 == 0))
+		want := "api-key@B"
+		if c%2 == 1 {
+			want = "base2@B"
+		}
+		if b.err != nil || b.h == nil {
+			r.Violation("lookup-of-known-name-fails", -1, fmt.Sprintf("two-services case %d: store B's call failed: %v", c, b.err), nil)
+		} else if got := string(b.h.Get()); got != want {
+			r.Violation("foreign-value", -1, fmt.Sprintf("two-services case %d: while a request of store A (service A) was outstanding, store B (service B) %s; B's handle returns %q - B's service has only ever served %q for it", c, map[bool]string{true: "looked the same name up", false: "completed a poll after its service had moved on"}[c%2 == 0], got, want), nil)
+		}
+		stA.Close()
+		stB.Close()
 	}
 }
